@@ -250,26 +250,43 @@ def run_rules(ctx, res):
     return check_build(syn, res, BLD)
 
 
+def direct_return(iff):
+    return any(st["k"] == "ExprStmt" and st["expr"]["k"] == "Return" and st["expr"].get("expr") is None for st in iff["then"]["stmts"])
+
+
 def check_build(syn, res, BLD):
-    # ---- build script
+    # ---- build script: the per-file step lives in main's loop or in a helper main calls for each grammar file
     bf = syn.file("kiki/build.rs")
     if bf is None:
         res.floor("anchor: kiki/build.rs", 0, 1)
         return
-    mains = [it for it in bf["items"] if it["k"] == "Fn" and it["name"] == "main"]
-    if not mains:
+    fns = {it["name"]: it for it in bf["items"] if it["k"] == "Fn"}
+    if "main" not in fns:
         res.floor("anchor: build.rs main", 0, 1)
         return
-    mn = mains[0]
-    bw = "kiki/build.rs:%d" % mn["line"]
+
+    def hash_tests(fn):
+        out = []
+        for iff in nodes(fn["body"], "If"):
+            c = iff["cond"]
+            if c["k"] == "Binary" and re.match(r"^(?:kiki::)?get_grammar_hash\(", unparse(c["left"]).replace(" ", "")):
+                out.append(iff)
+        return out
+
+    workers = [fn for fn in fns.values() if hash_tests(fn)]
+    if len(workers) != 1:
+        res.violate(BLD, "freshness-test", "kiki/build.rs", "expected exactly one function of the build script to compare the stored hash (found %d)" % len(workers))
+        return
+    wk = workers[0]
+    in_main = wk["name"] == "main"
+    skips_here = direct_continue if in_main else direct_return
+    bw = "kiki/build.rs:%d" % wk["line"]
     lets = {}
-    for st in nodes(mn["body"], "Let"):
+    for st in nodes(wk["body"], "Let"):
         if st["pat"]["k"] == "PIdent" and st.get("init") is not None:
             lets[st["pat"]["name"]] = unparse(st["init"]).replace(" ", "")
-    conts = []
-    for iff in nodes(mn["body"], "If"):
-        if direct_continue(iff) and iff["cond"]["k"] == "Binary":
-            conts.append(iff)
+    params = [i_["pat"].get("name") for i_ in wk["inputs"] if "pat" in i_]
+    conts = [iff for iff in hash_tests(wk) if skips_here(iff)]
     good = False
     for iff in conts:
         c = iff["cond"]
@@ -281,18 +298,43 @@ def check_build(syn, res, BLD):
             mh = re.match(r"^sha256::digest\(&\*?(\w+)\)$", hv)
             contents = mh.group(1) if mh else None
             cv = lets.get(contents, "") if contents else ""
-            gen_ok = any(re.match(r"^(?:kiki::)?generate\(&%s\)$" % re.escape(contents or "?"), unparse(cl).replace(" ", "")) for cl in nodes(mn["body"], "Call"))
+            gen_ok = any(re.match(r"^(?:kiki::)?generate\(&%s\)$" % re.escape(contents or "?"), unparse(cl).replace(" ", "")) for cl in nodes(wk["body"], "Call"))
             good = bool(mh) and cv.startswith("fs::read_to_string(") and gen_ok
-            res.inst(BLD, "freshness-test", bw, True, "skip iff reader(..) == Some(&%s), %s = %s, %s = %s, generate(&%s): %s" % (mr.group(1), mr.group(1), hv, contents, cv[:40], contents, gen_ok))
-    n_skip = len([x for x in nodes(mn["body"], "Continue")])
+            res.inst(BLD, "freshness-test", bw, True, "in %s: skip iff reader(..) == Some(&%s), %s = %s, %s = %s, generate(&%s): %s" % (wk["name"], mr.group(1), mr.group(1), hv, contents, cv[:40], contents, gen_ok))
     if not good:
         res.violate(BLD, "freshness-test", bw, "regeneration may only be skipped when `get_grammar_hash(<existing output>) == Some(&<sha256::digest of the grammar file contents as read>)` and generation must use those same contents")
-    # other `continue`s: only the ignore-list one
-    for iff in nodes(mn["body"], "If"):
-        if direct_continue(iff) and iff not in conts:
-            ct = unparse(iff["cond"])
-            if "is_ignored" not in ct:
-                res.violate(BLD, "other-skip|%s" % ct[:40], bw, "regeneration is also skipped under `%s`" % ct[:80])
+
+    def kiki_ext_test(fn):
+        """`fn f(path) -> bool { path.extension() == Some(OsStr::new("kiki")) }`"""
+        st = fn["body"]["stmts"]
+        return len(st) == 1 and st[0]["k"] == "ExprStmt" and re.match(r'^\w+\.extension\(\)==Some\(OsStr::new\("kiki"\)\)$', unparse(st[0]["expr"]).replace(" ", "")) is not None
+
+    def allowed_skip(cond_txt):
+        for part in cond_txt.replace(" ", "").split("||"):
+            if re.match(r"^is_ignored\(.*\)$", part):
+                continue
+            m_ = re.match(r"^!(\w+)\(.*\)$", part)
+            if m_ and m_.group(1) in fns and kiki_ext_test(fns[m_.group(1)]):
+                continue
+            if re.match(r'^[\w.()]+\.extension\(\)!=Some\(OsStr::new\("kiki"\)\)$', part):
+                continue
+            return False
+        return True
+
+    # other skips: only the ignore list / "not a grammar file"
+    for fn in ([wk] if in_main else [wk, fns["main"]]):
+        skf = direct_continue if fn["name"] == "main" else direct_return
+        for iff in nodes(fn["body"], "If"):
+            if skf(iff) and iff not in conts:
+                ct = unparse(iff["cond"])
+                if not allowed_skip(ct):
+                    res.violate(BLD, "other-skip|%s" % ct[:40], "kiki/build.rs:%d" % fn["line"], "regeneration is also skipped under `%s`" % ct[:80])
+    if not in_main:
+        # main must call the step for every walked entry that is not skipped above
+        calls = [c for c in nodes(fns["main"]["body"], "Call") if unparse(c["func"]).strip() == wk["name"]]
+        res.inst(BLD, "step-called-from-main", "kiki/build.rs:%d" % fns["main"]["line"], True, "%d call(s) of %s" % (len(calls), wk["name"]))
+        if len(calls) != 1:
+            res.violate(BLD, "step-called-from-main", "kiki/build.rs:%d" % fns["main"]["line"], "main must call `%s` once per walked entry; found %d calls" % (wk["name"], len(calls)))
 
 
 def check(ctx):
